@@ -877,7 +877,12 @@ class IntronPathProcessor:
         for intron in introns:
             if intron in self.intron_graph.intron_collector.discarded_introns:
                 return None
-            path.append(self.intron_graph.intron_collector.substitute(intron))
+            substitute_intron = self.intron_graph.intron_collector.substitute(intron)
+            if path and substitute_intron[0] <= path[-1][1] + 1:
+                # substitution made two neighbouring introns touch or overlap (the micro-exon between them is gone):
+                # the merged intron is not supported by any read
+                return None
+            path.append(substitute_intron)
         return path
 
     def thread_ends(self, intron, end, trusted=False):
